@@ -1,7 +1,52 @@
-(* Property C03 - the ledger is a function of the main chain alone. *)
-From Virel Require Import Lib.Config Lib.U64 Lib.AMap Model.Ledger Model.Node Proofs.NodeBasics.
+(* Property C03 - the ledger is a function of the main chain alone (reorganisations are exact).
+   Statements only; proofs in Proofs/Pointwise.v, Proofs/NodeBasics.v. *)
+From Virel Require Import Lib.Config Lib.U64 Lib.AMap Model.Emission Model.Ledger Model.Node
+  Proofs.Conservation Proofs.Pointwise Proofs.NodeBasics.
 Open Scope N_scope.
 
+(* FULL STATEMENT (lemma B of DESIGN.md): for every block and every ledger on which it applies, disconnecting it again
+   restores the accounts, the delegate records and the staked total. *)
+Definition C03_undo_block_full : Prop := forall cfg genesis_addr l b top_h l1,
+  apply_block cfg genesis_addr l b top_h = Ok l1 ->
+  exists l2, remove_block cfg genesis_addr l1 b top_h = Ok l2 /\ same_accounts l2 l /\
+             (forall id, get_dlg l2 id = get_dlg l id) /\ staked l2 = staked l.
+
+(* PROVED PARTS, each for ALL ledgers and all values:
+   - undoing the outputs of a transaction / of a coinbase without staker reward restores every account exactly;
+   - undoing the inputs restores every account exactly;
+   - undoing a whole transfer transaction (ApplyTxToState then RemoveTxFromState) restores every account, the delegate
+     table and the staked total.
+   MISSING for the full statement: the same composition for the four staking-related kinds and for the staker reward
+   (their delegate-record bookkeeping), and the lifting from transactions to blocks.  Those are covered by the
+   correspondence run (model = implementation on generated reorganisations) together with the implementation-side
+   check "a fresh node fed only the final main chain has the same ledger" (Check/C03.v), not by a theorem. *)
+Theorem C03_undo_outputs : forall outs l bh txid l1,
+  no_pos outs -> total_bal l + sum_souts outs < two64 ->
+  (forall a, inc (acct_at l a) + out_cnt outs a < two64) ->
+  apply_outputs l bh outs txid = (l1, None) ->
+  exists l2, remove_outputs l1 bh outs = (l2, None) /\ same_accounts l2 l /\
+    dlgs l2 = dlgs l /\ staked l2 = staked l /\ dhist l2 = dhist l.
+Proof. exact remove_apply_outputs. Qed.
+Print Assumptions C03_undo_outputs.
+
+Theorem C03_undo_inputs : forall ins l l1,
+  total_bal l < two64 -> apply_inputs l ins = Ok l1 ->
+  exists l2, remove_inputs l1 ins = Ok l2 /\ same_accounts l2 l /\
+    dlgs l2 = dlgs l /\ staked l2 = staked l /\ dhist l2 = dhist l.
+Proof. exact remove_apply_inputs. Qed.
+Print Assumptions C03_undo_inputs.
+
+Theorem C03_undo_transfer_partial : forall cfg l t outs0 h bh top_h l1 tot,
+  tx_data t = TTransfer outs0 ->
+  total_bal l < two64 -> wf_tx cfg t -> tx_total cfg t = Some tot ->
+  (forall a, inc (acct_at l a) + N.of_nat (length outs0) < two64) ->
+  nonce (acct_at l (addr_of_key (tx_signer t))) + 1 < two64 ->
+  apply_tx cfg l t h bh top_h = Ok l1 ->
+  exists l2, remove_tx cfg l1 t bh top_h = Ok l2 /\ same_accounts l2 l /\ dlgs l2 = dlgs l /\ staked l2 = staked l.
+Proof. exact remove_apply_transfer. Qed.
+Print Assumptions C03_undo_transfer_partial.
+
+(* a refused block or reorganisation changes nothing *)
 Theorem C03_reject_unchanged : forall cfg genesis_addr team_key n b now n' c amb,
   deliver cfg genesis_addr team_key n b now = (n', Rejected c, amb) -> n' = n.
 Proof. exact deliver_rejected_unchanged. Qed.
